@@ -84,6 +84,19 @@ CLAIMED = {
              "(F9a-g) and are excluded from the delta comparison by syntactic class, each probed on every run.",
         technique="Lean 4 proof (scanner lemmas, kernel-checked complete tables) + three-way lexer correspondence",
         design="§4 C14"),
+    "C18": dict(
+        text="Lean model of the tool's decision logic with theorems: backend = flag, else environment, else config, else "
+             "default (`backend_precedence`); exit status 0 iff compilation succeeded and (emit | run with a normally exiting "
+             "interpreter | build with backend status 0) (`exit_zero_iff`); a failed compilation never spawns a backend; `run` "
+             "shows exactly the program's status; --silent/--verbose gating. The real binary, built from the current tree, is "
+             "run on valid/invalid single- and multi-file inputs with stub backends that log argv and exit with chosen "
+             "statuses / die by signal, and with the real lli; exit status, chosen backend, `Output: n`, pass-through of "
+             "program output, rendered diagnostics honouring --color=never/--arrows=ascii and .pn.ll files are compared with "
+             "the model. Partial: clap parsing, process spawning and ariadne rendering are outside the model.",
+        note="Trusted: Lean kernel, the transcription of main.rs decision points (checked by correspondence), the stub backends, "
+             "the OS. `penne run` exits 0 whenever the interpreter exited normally (the status is shown, not propagated).",
+        technique="Lean 4 proof (decision logic stated outright) + black-box correspondence with the real binary",
+        design="§4 C18"),
     "C19": dict(
         text="Lean theorems over the fuzzer's unbounded payloads: for every u128 value the spellings the fuzzer formats "
              "(`to_string`, `{:x}`, `{:X}`, `{:b}`), bare and with each of the eleven suffixes, followed by a non-extending "
